@@ -2,7 +2,7 @@
 use crate::lua::*;
 use crate::reference::*;
 use crate::source::Source;
-use crate::{claim, note, proof, witness};
+use crate::{claim, note, proof, observe};
 use darklua_core::nodes::*;
 use darklua_core::process::{Evaluator, LuaValue};
 
@@ -19,9 +19,9 @@ pub fn ev_equal<S: Source>(s: &mut S) {
     let result = evaluator.verif_evaluate_equal(&answer(a), &answer(b));
     note!(s, "evaluate_equal({:?}, {:?}) = {:?}", answer(a), answer(b), result);
 
-    witness!(matches!(result, LuaValue::True), "equal folds to true");
-    witness!(matches!(result, LuaValue::False), "equal folds to false");
-    witness!(matches!(result, LuaValue::Unknown), "equal stays unknown");
+    observe!(matches!(result, LuaValue::True), "equal folds to true");
+    observe!(matches!(result, LuaValue::False), "equal folds to false");
+    observe!(matches!(result, LuaValue::Unknown), "equal stays unknown");
 
     claim!(
         s,
@@ -89,8 +89,8 @@ pub fn ev_hex<S: Source>(s: &mut S) {
     } else {
         (mantissa as f64) * pow2(exponent)
     };
-    witness!(has_exponent && exponent >= 64, "exponent beyond u64 range");
-    witness!(has_exponent && exponent < 64 && mantissa > (u64::MAX >> exponent), "mantissa * 2^e beyond u64 range");
+    observe!(has_exponent && exponent >= 64, "exponent beyond u64 range");
+    observe!(has_exponent && exponent < 64 && mantissa > (u64::MAX >> exponent), "mantissa * 2^e beyond u64 range");
     claim!(s, value.to_bits() == expected.to_bits(), "hex literal value is mantissa * 2^exponent");
 }
 proof!(#[kani::unwind(34)] #[kani::stub(f64::powi, powi_model)] c08_ev_hex => ev_hex);
@@ -103,11 +103,12 @@ pub fn ev_bin_dec<S: Source>(s: &mut S) {
     let float = s.any_f64();
     let upper = s.any_bool();
     let binary = BinaryNumber::new(raw, upper).compute_value();
+    note!(s, "BinaryNumber({}).compute_value() = {}", raw, binary);
     claim!(s, binary.to_bits() == (raw as f64).to_bits(), "binary literal value is its integer");
     let decimal = DecimalNumber::new(float).compute_value();
     claim!(s, decimal.to_bits() == float.to_bits(), "decimal literal value is its float");
     let via_enum = NumberExpression::from(DecimalNumber::new(float)).compute_value();
     claim!(s, via_enum.to_bits() == float.to_bits(), "NumberExpression dispatch keeps the value");
-    witness!(float.is_nan(), "nan payload");
+    observe!(float.is_nan(), "nan payload");
 }
 proof!(#[kani::unwind(34)] c08_ev_bin_dec => ev_bin_dec);
